@@ -23,6 +23,10 @@ type ParallelWorkers struct {
 	shouldShutdown    bool
 	triggeredShutdown bool
 
+	// queueLock is read-held while a job is added to [queue] and write-held
+	// while [queue] is closed, so that NewJob never sends on a closed queue.
+	queueLock sync.RWMutex
+
 	// single job execution
 	err   error // requires lock
 	sg    sync.WaitGroup
@@ -132,7 +136,9 @@ func (w *ParallelWorkers) Stop() {
 	w.lock.Lock()
 	w.shouldShutdown = true
 	w.lock.Unlock()
+	w.queueLock.Lock()
 	close(w.queue)
+	w.queueLock.Unlock()
 
 	// Wait for scheduler to return
 	<-w.ackShutdown
@@ -188,6 +194,9 @@ func (j *ParallelJob) Workers() int {
 // If you don't want to block, make sure taskBacklog is greater than all
 // possible tasks you'll add.
 func (w *ParallelWorkers) NewJob(taskBacklog int) (Job, error) {
+	w.queueLock.RLock()
+	defer w.queueLock.RUnlock()
+
 	w.lock.Lock()
 	shouldShutdown := w.shouldShutdown
 	w.lock.Unlock()
